@@ -45,7 +45,17 @@ func bindHashSet(d *drv, s *hashset.Set[int]) {
 	}
 	d.links = func() bool { return true }
 	d.fingerprint = func() string { return "HS" + intsText(sortedCopy(s.Values())) }
-	d.mutate = func() { s.Clear(); s.Add(mutateMark) }
+	d.mutate = func() {
+		// in-place writes first (Clear may replace the backing structure and hide sharing)
+		vs := s.Values()
+		s.Add(mutateMark)
+		if len(vs) > 0 {
+			s.Remove(vs[0])
+		}
+		s.Add(mutateMark + 1)
+		s.Clear()
+		s.Add(mutateMark)
+	}
 }
 
 func bindTreeSet(d *drv, s *treeset.Set[int]) {
@@ -82,7 +92,17 @@ func bindTreeSet(d *drv, s *treeset.Set[int]) {
 		t := s.VerifInner()
 		return fmt.Sprintf("TS%s size=%d", rbShape(t.Root, unitVal), t.Size())
 	}
-	d.mutate = func() { s.Clear(); s.Add(mutateMark) }
+	d.mutate = func() {
+		// in-place writes first (Clear may replace the backing structure and hide sharing)
+		vs := s.Values()
+		s.Add(mutateMark)
+		if len(vs) > 0 {
+			s.Remove(vs[0])
+		}
+		s.Add(mutateMark + 1)
+		s.Clear()
+		s.Add(mutateMark)
+	}
 }
 
 func bindLinkedHashSet(d *drv, s *linkedhashset.Set[int]) {
@@ -136,5 +156,15 @@ func bindLinkedHashSet(d *drv, s *linkedhashset.Set[int]) {
 	d.fingerprint = func() string {
 		return "LHS" + intsText(sortedCopy(s.VerifTable())) + dllFP(s.VerifOrdering())
 	}
-	d.mutate = func() { s.Clear(); s.Add(mutateMark) }
+	d.mutate = func() {
+		// in-place writes first (Clear may replace the backing structure and hide sharing)
+		vs := s.Values()
+		s.Add(mutateMark)
+		if len(vs) > 0 {
+			s.Remove(vs[0])
+		}
+		s.Add(mutateMark + 1)
+		s.Clear()
+		s.Add(mutateMark)
+	}
 }
